@@ -9,6 +9,7 @@ mod common;
 mod elem;
 mod exec;
 mod ledger;
+mod pair;
 mod replay;
 
 use std::cell::RefCell;
@@ -71,6 +72,17 @@ fn main() {
             if walks > 0 {
                 replay::run_walks(&table, &env, &mut rep, seed, walks, steps);
             }
+            let out = arg(&args, "--out").expect("--out");
+            std::fs::write(out, serde_json::to_string_pretty(&rep.to_json()).unwrap()).expect("write report");
+        }
+        "pairs" => {
+            let set_mode = arg(&args, "--mode").unwrap_or("set") == "set";
+            if let Some(p) = arg(&args, "--progress") {
+                let f = std::fs::File::create(p).expect("progress file");
+                PROGRESS.with(|x| *x.borrow_mut() = Some(f));
+            }
+            let mut rep = replay::Report::default();
+            pair::run_pairs(arg(&args, "--table").expect("--table"), set_mode, &mut rep);
             let out = arg(&args, "--out").expect("--out");
             std::fs::write(out, serde_json::to_string_pretty(&rep.to_json()).unwrap()).expect("write report");
         }
